@@ -151,3 +151,17 @@ Proof.
   - repeat constructor; vm_compute; try reflexivity; intros; discriminate.
   - vm_compute. repeat split; reflexivity.
 Qed.
+
+(* (9) The emulator side of the link model IS the code: one iteration of Emulator.Receive as REGENERATED statement by
+   statement from emulator.go on this run (Gen/EmuFns.v) takes Model.Emulator.estep's step on every token the scanner
+   delivers - same mode register, same configuration (the generated in-place Unmarshal), exactly the model's acknowledge
+   appended to the port's output - or ends the loop with an error and the state untouched. *)
+Require Import Base.GoBytes Gen.EmuFns Tie.EmuAgree.
+Theorem C16_emulator_step_model_is_the_source : forall st f, wf_bytes f -> conf_ok st ->
+  exists r, g_Emulator_Receive_step false true f None None st = Val r /\
+    match r with
+    | inl st' => estep (absE st true) (ERecv f) = (OWrote (skipn (length (snd st)) (snd st')), absE st' true) /\ conf_ok st'
+    | inr (e, st') => e <> None /\ estep (absE st true) (ERecv f) = (OWrote [], absE st' false) /\ st' = st
+    end.
+Proof. exact emu_receive_step_agrees. Qed.
+Print Assumptions C16_emulator_step_model_is_the_source.
